@@ -617,17 +617,39 @@ def c09(rep, tier):
                 'text-constrained kinds are wrong: %s%s' % (('kinds %s also have to match by text although the scanner gives several spellings one kind; ' % extra[:6]) if extra else '',
                                                             ('kinds %s match any text' % missing) if missing else ''), W(pr, None, mm.facts))
     dslots = {}
+    # the detector's table: a lambda of the constructor that maps the kind of a pattern token to a grammar symbol,
+    # either by pushing it or by returning it; evaluated for every token kind
     for f in mm.facts.functions:
-        if f['kind'] == 'lambda' and f.get('parent', '').startswith('MacroDetector::MacroDetector'):
-            for st in walk_stmts(f['body']):
-                if st['k'] == 'switch' and show(st['c']).endswith('.t'):
-                    for c in st['cases']:
-                        labs = [l.get('name') for l in c['labels'] if isinstance(l, dict)]
-                        pbs = [e for s in c['s'] for e in walk_all_exprs(s) if is_call(e, '::push_back')]
-                        rts = [x for s in c['s'] for x in walk_stmts(s) if x['k'] == 'return' and x.get('e') is not None]
-                        for l in labs:
-                            dslots[l] = show(strip_copies(pbs[0]['args'][0])) if pbs else (show(strip_copies(strip_casts(rts[0]['e']))) if rts else None)
-    okslots = set(dslots) == slots and len(slots) == 5 and len(set(dslots.values())) == 5 and all(v and 'term(' not in v for v in dslots.values())
+        if f['kind'] == 'lambda' and f.get('parent', '').startswith('MacroDetector::MacroDetector') and f.get('params'):
+            tokp = [p2 for p2 in f['params'] if 'Token' in (p2.get('cty') or '')]
+            if len(tokp) != 1 or len(f['params']) != 1:
+                continue
+            pd = tokp[0]['d']
+            is_kind_param = 'Type' in tokp[0]['cty']
+
+            def is_subj(x, env, pd=pd, is_kind_param=is_kind_param):
+                if x is None:
+                    return False
+                if is_kind_param:
+                    return x.get('k') == 'ref' and x.get('d') == pd
+                return x.get('k') == 'member' and x.get('name') == 't' and strip_casts(x['base']).get('k') == 'ref' and strip_casts(x['base']).get('d') == pd
+            if not any(st['k'] == 'switch' or st['k'] == 'if' for st in walk_stmts(f['body'])):
+                continue
+            ee = EnumEval(mm.facts, is_subj, lambda c: is_call(c, '::push_back'))
+            try:
+                tb = ee.table(f, kinds)
+            except EUnsupported:
+                continue
+            cand = {}
+            for K in kinds:
+                vals = [show(strip_copies(c['args'][0])) for c in tb[K]] + [show(strip_copies(strip_casts(r))) for r in ee.returned[K]]
+                if len(vals) == 1:
+                    cand[K] = vals[0]
+            # keep the kinds that are not mapped to a terminal built from the kind itself
+            nt = {K: v for K, v in cand.items() if 'term(' not in v}
+            if len(cand) == len(kinds) and nt:
+                dslots = nt
+    okslots = set(dslots) == slots and len(slots) == 5 and len(set(dslots.values())) == 5
     if not dslots or not slots:
         F.unknown('slot kinds', 'slot table of %s not recognised' % ('the detector' if not dslots else 'push_rule'), W(ctor, None, mm.facts))
     else:
